@@ -205,6 +205,19 @@ def check(case):
         for i in (0, 1):
             require(c4.permeances[k][i].units == build.KG and relerr(c4.permeances[k][i].value, perms[i]) <= 1e-13,
                     "curve given fluxes and permeances (%s) exposes %r", unit, c4.permeances[k][i])
+    # ONE Permeance object (in the case's unit) supplied for both components and all points - a membrane stated as non-selective in
+    # that unit: each component's kg value follows from its own molar mass
+    shared = build.permeance(convert_units(case["p1"], build.KG, unit, comps[0].molecular_weight), unit)
+    c6 = call(build.DiffusionCurve, mixture=mix, membrane_name="M", feed_temperature=case["T"], feed_compositions=feed,
+              permeances=[(shared, shared) for _ in feed])
+    require(not is_raised(c6), "curve from one shared Permeance object raised %r", c6)
+    want6 = (case["p1"], convert_units(shared.value, unit, build.KG, comps[1].molecular_weight))
+    for k in range(len(feed)):
+        for i in (0, 1):
+            require(c6.permeances[k][i].units == build.KG and relerr(c6.permeances[k][i].value, want6[i]) <= 1e-13,
+                    "one Permeance object (%r %s) supplied for both components is exposed for component %d as %r, expected %r kg/(m2 h kPa)",
+                    shared.value, unit, i + 1, c6.permeances[k][i], want6[i])
+    require(shared.units == unit, "the supplied Permeance object was modified: %r", shared)
     # the same permeances tabulated in the case's unit (DiffusionCurve.from_frame, the CSV layout): exposed in kg, fluxes = P x pf
     if "builtin" in case["mixture"]:
         import pandas
